@@ -8,7 +8,7 @@
   part of the certificate (`scanAgreeB`, checked on every scan result), and so is the coherence of
   the state that `recover_from_error` leaves (`cohB`).
 -/
-import LyonVerif.Lemmas.SweepSafeCohLoop
+import LyonVerif.Lemmas.SweepSafeCohRecover
 
 set_option linter.unusedSectionVars false
 set_option linter.unusedVariables false
@@ -100,19 +100,26 @@ theorem coh_of_B {s : St α} (h : cohB s = true) : Coh s := by
   unfold cohB at h
   simp only [Bool.and_eq_true, decide_eq_true_eq, Bool.not_eq_true'] at h
   obtain ⟨⟨⟨h1, h2⟩, h3⟩, h4⟩ := h
-  refine ⟨?_, h2, h3, ?_⟩
+  have h5 : ∀ k e, s.active[k]? = some e → e.isMerge = true → (Wat s k).isIn = true ∧ e.winding = 0 := by
+    intro k e hk hm
+    have hlt : k < s.active.size := by
+      rcases Array.getElem?_eq_some_iff.mp hk with ⟨hh, _⟩; exact hh
+    have := (List.all_eq_true.mp h4) k (by simpa using hlt)
+    rw [hk] at this
+    simp only [hm, Bool.not_true, Bool.false_or, Bool.and_eq_true, beq_iff_eq] at this
+    exact this
+  refine ⟨?_, h2, h3, fun k e hk hm => (h5 k e hk hm).1, ?_⟩
   · intro k hk hn
     exfalso
     have := (Array.all_eq_true.mp h1) k hk
     rw [hn] at this
     cases this
-  · intro k e hk hm
-    have hlt : k < s.active.size := by
-      rcases Array.getElem?_eq_some_iff.mp hk with ⟨hh, _⟩; exact hh
-    have := (List.all_eq_true.mp h4) k (by simpa using hlt)
-    rw [hk] at this
-    simp only [hm, Bool.not_true, Bool.false_or] at this
-    exact this
+  · intro x hx hm
+    unfold sigs at hx
+    rcases List.mem_map.mp hx with ⟨e, he, hex⟩
+    rcases Array.mem_iff_getElem?.mp (Array.mem_toList_iff.mp he) with ⟨k, hk⟩
+    rw [← hex] at hm ⊢
+    exact (h5 k e hk hm).2
 
 theorem Coh.next {s : St α} (h : Coh s) : Coh (nextSt s) := h.frame rfl rfl rfl
 
@@ -121,10 +128,20 @@ theorem Coh.safe {tol : α} {s : St α} (h : Coh s) (ht : s.tolerance = tol) : S
 
 variable {tol : α}
 
+/-- where `ScanAgree` comes from: checked on the scan result (`g`), or a theorem (`HorizAgree`: ordered fields) -/
+def GOk (g : Bool) (tol : α) : Prop := g = true ∨ HorizAgree tol
+
+theorem GOk.agree {g : Bool} {tol : α} (hg : GOk g tol) {s1 : St α} (ht : s1.tolerance = tol) {scan : Scan}
+    (hsc : scanActiveEdges s1 = .ok scan) (h : (!g || scanAgreeB s1 scan) = true) : ScanAgree s1 scan := by
+  rcases hg with hg | hg
+  · subst hg
+    exact scanAgree_of_B (by simpa using h)
+  · exact scanAgree_of_horiz (of_scan_both hsc).1 (of_scan_both hsc).2 (ht ▸ hg)
+
 /-- the outcome of `process_events` on a coherent state whose scan succeeds and passes the checks -/
 theorem proc_core (hUp : NextUpOk α ∨ mAssert ∈ A) (rec : St α → Bool) (s1 : St α) (hc : Coh s1)
     (ht : s1.tolerance = tol) (scan : Scan) (hsc : scanActiveEdges s1 = .ok scan)
-    (hG : scanAgreeB s1 scan = true) (hT : procTailB rec s1 = true) :
+    (hG : ScanAgree s1 scan) (hT : procTailB rec s1 = true) :
     match ((processEvents : SM α (Option IErr)).run.run s1 : Except Fail (Option IErr) × St α) with
     | (.ok r, s2) => r = none ∧ Coh s2 ∧ s2.tolerance = tol ∧ rec (nextSt s2) = true
     | (.error f, _) => Allowed A f := by
@@ -132,7 +149,7 @@ theorem proc_core (hUp : NextUpOk α ∨ mAssert ∈ A) (rec : St α → Bool) (
     intro sc h
     rw [hsc] at h
     cases h
-    exact scanAgree_of_B hG
+    exact hG
   have hf := (wp_iff_run _ _ _ s1).mp (processEvents_coh_at (A := A) s1 hc hG' hUp s1 rfl)
   unfold procTailB at hT
   revert hT
@@ -150,14 +167,14 @@ theorem proc_core (hUp : NextUpOk α ∨ mAssert ∈ A) (rec : St α → Bool) (
     rw [hsc] at hf hstep
     obtain ⟨hr, W, hN⟩ := hf
     have hb := of_scan_both hsc
-    exact ⟨hr, coh_after hb.1 hb.2 hc (scanAgree_of_B hG) (hstep W hN) hN, by rw [hN.tol]; exact ht, hT.2⟩
+    exact ⟨hr, coh_after hb.1 hb.2 hc hG (hstep W hN) hN, by rw [hN.tol]; exact ht, hT.2⟩
 
 /-- ... and when the scan fails: `process_events` hands the error back, nothing the invariants read
 has changed -/
 theorem proc_err_core (hUp : NextUpOk α ∨ mAssert ∈ A) (s1 : St α) (hc : Coh s1) (ht : s1.tolerance = tol)
     (e : IErr) (hsc : scanActiveEdges s1 = .error e) :
     match ((processEvents : SM α (Option IErr)).run.run s1 : Except Fail (Option IErr) × St α) with
-    | (.ok r, s2) => r = some e ∧ Safe tol s2
+    | (.ok r, s2) => r = some e ∧ Coh s2 ∧ s2.tolerance = tol
     | (.error f, _) => Allowed A f := by
   have hG' : ∀ sc, scanActiveEdges s1 = .ok sc → ScanAgree s1 sc := by
     intro sc h; rw [hsc] at h; cases h
@@ -171,16 +188,16 @@ theorem proc_err_core (hUp : NextUpOk α ∨ mAssert ∈ A) (s1 : St α) (hc : C
     intro hf
     unfold EvPost at hf
     rw [hsc] at hf
-    exact ⟨hf.1, safe_iff.mpr ⟨hf.2.1 ▸ hc.live, by rw [hf.2.2.2.2]; exact ht⟩⟩
+    exact ⟨hf.1, hc.frame hf.2.1 hf.2.2.1 hf.2.2.2.1, by rw [hf.2.2.2.2]; exact ht⟩
 
-theorem init_spec (rec : St α → Bool) :
-    ⦃fun s => ⌜Coh s ∧ s.tolerance = tol ∧ initTailB rec s = true⌝⦄ (initializeEvents : SM α Unit)
-    ⦃safePost A fun _ s1 => Coh s1 ∧ s1.tolerance = tol ∧ firstB rec s1 = true⦄ := by
+theorem init_spec (g : Bool) (rec : St α → Bool) :
+    ⦃fun s => ⌜Coh s ∧ s.tolerance = tol ∧ initTailGB g rec s = true⌝⦄ (initializeEvents : SM α Unit)
+    ⦃safePost A fun _ s1 => Coh s1 ∧ s1.tolerance = tol ∧ firstGB g rec s1 = true⦄ := by
   intro s h
   have hf := (wp_iff_run _ _ _ s).mp (initializeEvents_frame (A := A) s s rfl)
   refine (wp_iff_run _ _ _ s).mpr ?_
   have hI := h.2.2
-  unfold initTailB at hI
+  unfold initTailGB at hI
   revert hI
   revert hf
   generalize ((initializeEvents : SM α Unit).run.run s : Except Fail Unit × St α) = r
@@ -192,19 +209,19 @@ theorem init_spec (rec : St α → Bool) :
     exact ⟨h.1.frame hf.1 hf.2.1 hf.2.2.1, by rw [hf.2.2.2]; exact h.2.1, hI⟩
 
 /-- first attempt at an event -/
-theorem proc1_spec (hUp : NextUpOk α ∨ mAssert ∈ A) (rec : St α → Bool) :
-    ⦃fun s1 => ⌜Coh s1 ∧ s1.tolerance = tol ∧ firstB rec s1 = true⌝⦄ (processEvents : SM α (Option IErr))
+theorem proc1_spec (hUp : NextUpOk α ∨ mAssert ∈ A) (g : Bool) (hg : GOk g tol) (rec : St α → Bool) :
+    ⦃fun s1 => ⌜Coh s1 ∧ s1.tolerance = tol ∧ firstGB g rec s1 = true⌝⦄ (processEvents : SM α (Option IErr))
     ⦃safePost A fun r s2 => (r = none ∧ Coh s2 ∧ s2.tolerance = tol ∧ rec (nextSt s2) = true) ∨
-      (r ≠ none ∧ Safe tol s2 ∧ recTailB rec s2 = true)⦄ := by
+      (r ≠ none ∧ Coh s2 ∧ s2.tolerance = tol ∧ recTailGB g rec s2 = true)⦄ := by
   intro s1 h
   refine (wp_iff_run _ _ _ s1).mpr ?_
   have hF := h.2.2
-  unfold firstB at hF
+  unfold firstGB at hF
   cases hsc : scanActiveEdges s1 with
   | ok scan =>
     rw [hsc] at hF
     simp only [Bool.and_eq_true] at hF
-    have := proc_core (A := A) hUp rec s1 h.1 h.2.1 scan hsc hF.1 hF.2
+    have := proc_core (A := A) hUp rec s1 h.1 h.2.1 scan hsc (hg.agree h.2.1 hsc hF.1) hF.2
     revert this
     generalize ((processEvents : SM α (Option IErr)).run.run s1 : Except Fail (Option IErr) × St α) = r
     obtain ⟨res, s2⟩ := r
@@ -220,16 +237,16 @@ theorem proc1_spec (hUp : NextUpOk α ∨ mAssert ∈ A) (rec : St α → Bool) 
     obtain ⟨res, s2⟩ := r
     cases res with
     | error f => intro h' _; exact h'
-    | ok r => intro h' hF; exact Or.inr ⟨by rw [h'.1]; simp, h'.2, hF⟩
+    | ok r => intro h' hF; exact Or.inr ⟨by rw [h'.1]; simp, h'.2.1, h'.2.2, hF⟩
 
-theorem rec_spec (hNaN : NoNaN α ∨ mNaN ∈ A) (rec : St α → Bool) :
-    ⦃fun s => ⌜Safe tol s ∧ recTailB rec s = true⌝⦄ (recoverFromError : SM α Unit)
-    ⦃safePost A fun _ s3 => Coh s3 ∧ s3.tolerance = tol ∧ secondB rec s3 = true⦄ := by
+theorem rec_spec (hNaN : NoNaN α ∨ mNaN ∈ A) (g : Bool) (rec : St α → Bool) :
+    ⦃fun s => ⌜Coh s ∧ s.tolerance = tol ∧ recTailGB g rec s = true⌝⦄ (recoverFromError : SM α Unit)
+    ⦃safePost A fun _ s3 => Coh s3 ∧ s3.tolerance = tol ∧ secondGB g rec s3 = true⦄ := by
   intro s h
-  have hf := (wp_iff_run _ _ _ s).mp (recoverFromError_safe (α := α) (tol := tol) (A := A) hNaN s h.1)
+  have hf := (wp_iff_run _ _ _ s).mp (recoverFromError_coh (α := α) (A := A) hNaN tol s ⟨h.1, h.2.1⟩)
   refine (wp_iff_run _ _ _ s).mpr ?_
-  have hR := h.2
-  unfold recTailB at hR
+  have hR := h.2.2
+  unfold recTailGB at hR
   revert hR
   revert hf
   generalize ((recoverFromError : SM α Unit).run.run s : Except Fail Unit × St α) = r
@@ -238,26 +255,25 @@ theorem rec_spec (hNaN : NoNaN α ∨ mNaN ∈ A) (rec : St α → Bool) :
   | error e => intro hf _; exact hf
   | ok u =>
     intro hf hR
-    simp only [Bool.and_eq_true] at hR
-    exact ⟨coh_of_B hR.1, (safe_iff.mp hf).2, hR.2⟩
+    exact ⟨hf.1, hf.2, hR⟩
 
 /-- the second `process_events` of an event (after the recovery), as a constant of its own so that the
 two calls get different specifications -/
 def processEventsAgain : SM α (Option IErr) := processEvents
 
-theorem proc2_spec (hUp : NextUpOk α ∨ mAssert ∈ A) (rec : St α → Bool) :
-    ⦃fun s3 => ⌜Coh s3 ∧ s3.tolerance = tol ∧ secondB rec s3 = true⌝⦄ (processEventsAgain : SM α (Option IErr))
+theorem proc2_spec (hUp : NextUpOk α ∨ mAssert ∈ A) (g : Bool) (hg : GOk g tol) (rec : St α → Bool) :
+    ⦃fun s3 => ⌜Coh s3 ∧ s3.tolerance = tol ∧ secondGB g rec s3 = true⌝⦄ (processEventsAgain : SM α (Option IErr))
     ⦃safePost A fun r s4 => r = none → Coh s4 ∧ s4.tolerance = tol ∧ rec (nextSt s4) = true⦄ := by
   intro s3 h
   unfold processEventsAgain
   refine (wp_iff_run _ _ _ s3).mpr ?_
   have hF := h.2.2
-  unfold secondB at hF
+  unfold secondGB at hF
   cases hsc : scanActiveEdges s3 with
   | ok scan =>
     rw [hsc] at hF
     simp only [Bool.and_eq_true] at hF
-    have := proc_core (A := A) hUp rec s3 h.1 h.2.1 scan hsc hF.1 hF.2
+    have := proc_core (A := A) hUp rec s3 h.1 h.2.1 scan hsc (hg.agree h.2.1 hsc hF.1) hF.2
     revert this
     generalize ((processEvents : SM α (Option IErr)).run.run s3 : Except Fail (Option IErr) × St α) = r
     obtain ⟨res, s4⟩ := r
@@ -294,19 +310,20 @@ theorem tessellatorLoop_eq (f : Nat) : (tessellatorLoop (f + 1) : SM α Unit) = 
 
 /-- **the loop**: from a coherent state, a run with a `true` certificate fails only in the ways `A`
 allows -/
-theorem loop_coh (hUp : NextUpOk α ∨ mAssert ∈ A) (hNaN : NoNaN α ∨ mNaN ∈ A) : ∀ f : Nat,
-    ⦃fun s => ⌜Coh s ∧ s.tolerance = tol ∧ allOkB f s = true⌝⦄ (tessellatorLoop f : SM α Unit)
+theorem loop_coh (hUp : NextUpOk α ∨ mAssert ∈ A) (hNaN : NoNaN α ∨ mNaN ∈ A) (g : Bool) (hg : GOk g tol) :
+    ∀ f : Nat,
+    ⦃fun s => ⌜Coh s ∧ s.tolerance = tol ∧ allOkGB g f s = true⌝⦄ (tessellatorLoop f : SM α Unit)
     ⦃safePost A fun _ _ => True⦄
   | 0 => by
     unfold tessellatorLoop
     mvcgen
     exact allowed_fuel
   | f+1 => by
-    have ih := loop_coh hUp hNaN f
-    have h1 := init_spec (α := α) (A := A) (tol := tol) (allOkB f)
-    have h2 := proc1_spec (α := α) (A := A) (tol := tol) hUp (allOkB f)
-    have h3 := rec_spec (α := α) (A := A) (tol := tol) hNaN (allOkB f)
-    have h4 := proc2_spec (α := α) (A := A) (tol := tol) hUp (allOkB f)
+    have ih := loop_coh hUp hNaN g hg f
+    have h1 := init_spec (α := α) (A := A) (tol := tol) g (allOkGB g f)
+    have h2 := proc1_spec (α := α) (A := A) (tol := tol) hUp g hg (allOkGB g f)
+    have h3 := rec_spec (α := α) (A := A) (tol := tol) hNaN g (allOkGB g f)
+    have h4 := proc2_spec (α := α) (A := A) (tol := tol) hUp g hg (allOkGB g f)
     rw [tessellatorLoop_eq]
     strip_mdata
     mvcgen [mark, ih, h1, h2, h3, h4]
@@ -316,7 +333,7 @@ theorem loop_coh (hUp : NextUpOk α ∨ mAssert ∈ A) (hNaN : NoNaN α ∨ mNaN
       | (rename_i s h hne
          refine ⟨h.1, h.2.1, ?_⟩
          have hA := h.2.2
-         unfold allOkB at hA
+         unfold allOkGB at hA
          simp only [Bool.or_eq_true] at hA
          rcases hA with hA | hA
          · exact absurd hA hne
@@ -336,21 +353,22 @@ theorem loop_coh (hUp : NextUpOk α ∨ mAssert ∈ A) (hNaN : NoNaN α ∨ mNaN
 
 theorem coh_init (q : Queue α) (rule : Slab.Rule) (horizontal : Bool) (tol : α) (handleIx : Bool) :
     Coh (initSt q rule horizontal tol handleIx) := by
-  refine ⟨by intro k hk; simp [initSt] at hk, ?_, ?_, ?_⟩
+  refine ⟨by intro k hk; simp [initSt] at hk, ?_, ?_, ?_, ?_⟩
   · simp [Wtot, Wat, wfold, initSt, WindingState.new]
   · simp [Wtot, Wat, wfold, initSt, WindingState.new]
   · intro k e hk; simp [initSt] at hk
+  · intro x hx; simp [sigs, initSt] at hx
 
 
 theorem tessellateImpl_clean (q : Queue α) (rule : Slab.Rule) (horizontal : Bool) (tol : α) (handleIx : Bool)
-    (hUp : NextUpOk α ∨ mAssert ∈ A) (hNaN : NoNaN α ∨ mNaN ∈ A)
-    (hB : cleanRunB q rule horizontal tol handleIx = true) (f : Fail)
+    (hUp : NextUpOk α ∨ mAssert ∈ A) (hNaN : NoNaN α ∨ mNaN ∈ A) (g : Bool) (hg : GOk g (tol * half))
+    (hB : cleanRunGB g q rule horizontal tol handleIx = true) (f : Fail)
     (hf : (tessellateImpl q rule horizontal tol handleIx).1 = some f) : Allowed A f := by
   unfold tessellateImpl at hf
   split at hf
   · cases hf; exact allowed_err _
   · dsimp only at hf
-    have h := (wp_iff_run _ _ _ _).mp (loop_coh (α := α) (A := A) (tol := tol * half) hUp hNaN _
+    have h := (wp_iff_run _ _ _ _).mp (loop_coh (α := α) (A := A) (tol := tol * half) hUp hNaN g hg _
       (initSt q rule horizontal tol handleIx) ⟨coh_init q rule horizontal tol handleIx, rfl, hB⟩)
     split at hf
     · rename_i f' heq
@@ -370,12 +388,13 @@ theorem tessellateImpl_clean (q : Queue α) (rule : Slab.Rule) (horizontal : Boo
 
 theorem tessellate_clean (entry : Entry) (rule : Slab.Rule) (horizontal : Bool) (tol : α) (handleIx : Bool)
     (subs : List (SubPath α)) (hUp : NextUpOk α ∨ mAssert ∈ A) (hNaN : NoNaN α ∨ mNaN ∈ A)
-    (hB : cleanB entry rule horizontal tol handleIx subs = true) (f : Fail)
+    (g : Bool) (hg : GOk g (tol * half))
+    (hB : cleanGB g entry rule horizontal tol handleIx subs = true) (f : Fail)
     (hf : (tessellate entry rule horizontal tol handleIx subs).1 = some f) : Allowed A f := by
   unfold tessellate at hf
   dsimp only at hf
   split at hf
   · cases hf; exact allowed_unmodelled _
-  · exact tessellateImpl_clean _ _ _ _ _ hUp hNaN hB f hf
+  · exact tessellateImpl_clean _ _ _ _ _ hUp hNaN g hg hB f hf
 
 end Lyon.SweepCoh
